@@ -147,6 +147,94 @@ fn senc_case(r: &mut Rng) -> String {
     format!("senc {} {} R {}", k, ops.join(" "), rs)
 }
 
+
+/// text elements written through the stateful encoder under a Specific Character Set other than the
+/// default one, with characters whose encoded length differs from their UTF-8 length: the declared
+/// length and the padding must follow the *encoded* bytes.
+/// line: `cstxt <k> <hex of the defined term> E <tag8>:<VR>:<s|m>:<hex,hex,…> … R ok <hex> <bytes_written> | err | panic`
+fn cstxt_case(r: &mut Rng) -> String {
+    const SETS: &[(&str, &str)] = &[
+        ("ISO_IR 100", "ãéüÿÆñ"),
+        ("ISO_IR 144", "ЖяЁю"),
+        ("ISO_IR 126", "αβΩλ"),
+        ("ISO_IR 192", "ã€😀Жα"),
+        ("ISO_IR 6", ""),
+    ];
+    const ELS: &[(Tag, VR)] = &[
+        (Tag(0x0008, 0x0018), VR::UI),
+        (Tag(0x0008, 0x0060), VR::CS),
+        (Tag(0x0008, 0x0080), VR::LO),
+        (Tag(0x0008, 0x1030), VR::LO),
+        (Tag(0x0010, 0x0010), VR::PN),
+        (Tag(0x0010, 0x4000), VR::LT),
+        (Tag(0x0040, 0xA160), VR::UT),
+    ];
+    let k = r.below(3) as u8;
+    let (code, extra) = *r.pick(SETS);
+    let n = r.usize(1, 3);
+    let mut picked: Vec<usize> = (0..ELS.len()).collect();
+    while picked.len() > n {
+        let j = r.usize(0, picked.len() - 1);
+        picked.remove(j);
+    }
+    let mut text = |r: &mut Rng, vr: VR| -> String {
+        let len = r.usize(0, 6);
+        (0..len)
+            .map(|_| match vr {
+                VR::UI => *r.pick(&['1', '2', '.', '9']),
+                VR::CS => *r.pick(&['A', 'B', '_', '7']),
+                _ => {
+                    let pool: Vec<char> = "Ab x^".chars().chain(extra.chars()).chain(extra.chars()).collect();
+                    *r.pick(&pool)
+                }
+            })
+            .collect::<String>()
+            .trim()
+            .to_string()
+    };
+    let mut els: Vec<(Tag, VR, PrimitiveValue, String)> = Vec::new();
+    for j in picked {
+        let (tag, vr) = ELS[j];
+        if r.chance(1, 3) && !matches!(vr, VR::LT | VR::UT) {
+            let m = r.usize(1, 3);
+            let comps: Vec<String> = (0..m).map(|_| text(r, vr)).collect();
+            let tok = comps.iter().map(|c| hexs(c)).collect::<Vec<_>>().join(",");
+            els.push((tag, vr, PrimitiveValue::Strs(comps.into()), format!("{:04x}{:04x}:{}:m:{}", tag.0, tag.1, vrn(vr), tok)));
+        } else {
+            let t = text(r, vr);
+            let tok = hexs(&t);
+            els.push((tag, vr, PrimitiveValue::Str(t), format!("{:04x}{:04x}:{}:s:{}", tag.0, tag.1, vrn(vr), tok)));
+        }
+    }
+    let mut out: Vec<u8> = Vec::new();
+    let mut written = 0u64;
+    let mut failed = false;
+    macro_rules! run {
+        ($enc:expr) => {{
+            let cs = SpecificCharacterSet::from_code(code).expect("supported set");
+            let mut p = StatefulEncoder::new(&mut out, EncoderFor::new($enc), cs);
+            for (tag, vr, v, _) in &els {
+                if p.encode_primitive_element(&DataElementHeader::new(*tag, *vr, Length(0)), v).is_err() {
+                    failed = true;
+                    break;
+                }
+            }
+            written = p.bytes_written();
+        }};
+    }
+    let res = catch(std::panic::AssertUnwindSafe(|| match k {
+        0 => run!(ImplicitVRLittleEndianEncoder::default()),
+        1 => run!(ExplicitVRLittleEndianEncoder::default()),
+        _ => run!(ExplicitVRBigEndianEncoder::default()),
+    }));
+    let rs = match res {
+        Err(_) => "panic".to_string(),
+        Ok(()) if failed => "err".to_string(),
+        Ok(()) => format!("ok {} {}", hex(&out), written),
+    };
+    format!("cstxt {} {} E {} R {}", k, hexs(code), els.iter().map(|e| e.3.clone()).collect::<Vec<_>>().join(" "), rs)
+}
+
 fn main() {
     let a = parse_args();
     quiet_panics();
@@ -156,7 +244,14 @@ fn main() {
         let line = match i % 10 {
             0 if i == 0 => witness_case(),
             0..=5 => ds_case(&mut r, a.thorough),
-            6 | 7 => prim_case(&mut r),
+            6 => prim_case(&mut r),
+            7 => {
+                if i % 20 == 7 {
+                    cstxt_case(&mut r)
+                } else {
+                    prim_case(&mut r)
+                }
+            }
             _ => senc_case(&mut r),
         };
         out.line(&format!("#{} {}", i, line));
